@@ -191,6 +191,18 @@ func (t *Task) IsClaimable() bool {
 	return !t.isLocked() && t.status == ACTIVE && t.state == sm.STANDBY
 }
 
+// claim locks the task for the given role if it is still claimable, and reports whether it did.
+// Checking and locking in one step keeps two concurrent acquisitions from taking over the same task.
+func (t *Task) claim(parent parentRole) bool {
+	t.mu.Lock()
+	defer t.mu.Unlock()
+	if t.isLocked() || t.status != ACTIVE || t.state != sm.STANDBY {
+		return false
+	}
+	t.parent = parent
+	return true
+}
+
 func (t *Task) GetName() string {
 	t.mu.RLock()
 	defer t.mu.RUnlock()
